@@ -254,4 +254,28 @@ def stopAt (a : LSt) (r : Nat) : Bool × LSt :=
 
 end LSt
 
+/-- a client program on the unchunked machine -/
+def specRun {α : Type} : Prog α → LSt → α × LSt
+  | .ret x, a => (x, a)
+  | .rune k, a => let (r, a) := a.rune; specRun (k r) a
+  | .peek k, a => let (b, a) := a.peek; specRun (k b) a
+  | .peekTwo k, a => let (x, y, a) := a.peekTwo; specRun (k x y) a
+  | .zshNum k, a => let (b, a) := a.zshNum; specRun (k b) a
+  | .stopAt r k, a => let (b, a) := a.stopAt r; specRun (k b) a
+  | .newLit r k, a => specRun k (a.newLit r)
+  | .endLit k, a => let (l, a) := a.endLit; specRun (k l) a
+  | .pos k, a => let ((o, l, c), a) := a.pos; specRun (k o l c) a
+  | .setBquotes o d k, a => specRun k { a with openBq := o, openBqDbl := d }
+  | .getRW k, a => specRun (k a.r a.w) a
+  | .lastBq k, a => specRun (k a.lastBqEsc) a
+  | .litGet k, a => specRun (k (a.lit.map List.reverse)) a
+  | .litAppend bs k, a => specRun k { a with lit := some (bs.reverse ++ a.lit.getD []) }
+  | .litDrop k, a => specRun k { a with lit := none }
+  | .errPass k, a => specRun k (a.errPass .client)
+  | .errGet k, a => specRun (k a.err.isSome) a
+
+/-- the client protocol: the run on the unchunked machine never steps outside it -/
+def InProtocol {α : Type} (p : Prog α) (input stopPat : List Byte) : Prop :=
+  (specRun p (LSt.init input stopPat)).2.ok = true
+
 end ShVerif.C07
